@@ -10,6 +10,7 @@ import itertools
 import math
 import warnings
 
+from .. import layout as LY
 from ..oracles import c03_oc as O
 from ..oracles import lev
 from . import _strgen as G
@@ -323,7 +324,7 @@ def _call_oc(mon, case, ref, hyp):
         warnings.simplefilter("ignore")
         if case["form"] == "module":
             mon.stat("form_module")
-            return mon.lib("optimal_completion", lambda: M.OptimalCompletion(**kw)(ref, hyp),
+            return mon.lib("optimal_completion", lambda: LY.travelled(M.OptimalCompletion(**kw), case["R"], case["H"], len(case["ref"]))(ref, hyp),
                            documented=documented)
         return mon.lib("optimal_completion", lambda: F.optimal_completion(ref, hyp, **kw),
                        documented=documented)
@@ -446,7 +447,7 @@ def _call_loss(mon, case, logits, ref, hyp):
         warnings.simplefilter("ignore")
         if case["form"] == "module":
             mon.stat("form_module")
-            return mon.lib(name, lambda: M.HardOptimalCompletionDistillationLoss(**kw)(logits, ref, hyp, warn=False))
+            return mon.lib(name, lambda: LY.travelled(M.HardOptimalCompletionDistillationLoss(**kw), case["R"], case["H"], len(case["ref"]))(logits, ref, hyp, warn=False))
         return mon.lib(name, lambda: F.hard_optimal_completion_distillation_loss(logits, ref, hyp, warn=False, **kw))
 
 
